@@ -144,6 +144,14 @@ Definition link_ok (k : kind) (is_base : bool) (t : tref) : Prop :=
   (is_base = true -> k = Yidentityref -> t_idbase t <> None) /\
   nodup_names (t_enums t) = true /\ nodup_names (t_bits t) = true.
 
+(* the type statements of a chain, nearest first: the last one names the built-in type *)
+Fixpoint links_ok (k : kind) (l : list tref) : Prop :=
+  match l with
+  | [] => True
+  | [t] => link_ok k true t
+  | t :: r => link_ok k false t /\ links_ok k r
+  end.
+
 (* ------------------------------------------------------------------ the path the resolver follows
    One step is the model's lookup (tied to binds by lookup_sound / lookup_none / lookup_exact); lchain is chain
    read along these steps, reaches/cyclic say that following them from a reference meets a typedef, resp. that a
